@@ -362,6 +362,15 @@ func (dec *Decoder) readCount() (count int) {
 		}
 		return 0
 	}
+	if dec.reader != nil && count > math.MaxInt32 {
+		// nothing is known about how much input follows, but no count or
+		// length of the format exceeds 32 bits: larger ones overflow the
+		// arithmetic that sizes buffers
+		if dec.Error == nil {
+			dec.Error = DecodeError("hprose/io: invalid count " + strconv.Itoa(count))
+		}
+		return 0
+	}
 	if dec.reader == nil && count > dec.tail-dec.head {
 		// the input ends before the declared elements: the same outcome as
 		// reading them one by one until the end, without the allocation
